@@ -239,3 +239,95 @@ class Session:
         except OSError:
             pass
         shutil.rmtree(self.d, ignore_errors=True)
+
+
+class LineSession:
+    """A plain interactive session for checks that type lines / keys at the prompt (C16, C20, C05).
+    cwd is <scratch>/cwd; helpers log to <scratch>/vh/log.ndjson."""
+
+    def __init__(self, files=None, dirs=None, env=None, vhfiles=None, rows=24, cols=200):
+        self.d = new_scratch()
+        self.cwd = os.path.join(self.d, "cwd")
+        for rel in (dirs or []):
+            os.makedirs(os.path.join(self.cwd, rel), exist_ok=True)
+        for rel, content in (files or {}).items():
+            p = os.path.join(self.cwd, rel)
+            os.makedirs(os.path.dirname(p), exist_ok=True)
+            with open(p, "w", encoding="utf-8", newline="") as f:
+                f.write(content)
+        for name, content in (vhfiles or {}).items():
+            with open(os.path.join(self.d, "vh", name), "w", encoding="utf-8", newline="") as f:
+                f.write(content)
+        self.log_path = os.path.join(self.d, "vh", "log.ndjson")
+        e = {"PATH": HELPERS + ":/usr/bin:/bin", "HOME": os.path.join(self.d, "home"), "PROMPT": PS + " ",
+             "TERM": "xterm", "VH_LOG": self.log_path, "VH_DIR": os.path.join(self.d, "vh"), "VH_ENVNAMES": "",
+             "HISTORY_FILE": os.path.join(self.d, "home", "hist.sqlite"), "LANG": "C.UTF-8", "LC_ALL": "C.UTF-8",
+             "NO_EXIT_ON_CTRL_D": "1", "XDG_DATA_HOME": os.path.join(self.d, "home", ".local", "share")}
+        if env:
+            for k, v in env.items():
+                e[k] = v.replace("@SCRATCH@", self.d) if isinstance(v, str) else v
+        self.pid, self.fd = pty.fork()
+        if self.pid == 0:
+            os.chdir(self.cwd)
+            os.execve(CICADA, ["cicada"], e)
+        try:
+            import fcntl
+            import struct
+            import termios
+            fcntl.ioctl(self.fd, termios.TIOCSWINSZ, struct.pack("HHHH", rows, cols, 0, 0))
+        except Exception:  # noqa
+            pass
+        self.all_text = b""
+        ok, _ = self.settle(15.0)
+        if not ok:
+            self.close()
+            raise Unsettled("shell did not reach its first prompt")
+
+    read_some = Session.read_some
+    shell_syscall = Session.shell_syscall
+    shell_state = Session.shell_state
+    settle = Session.settle
+
+    def alive(self):
+        return self.shell_state() not in ("X", "Z")
+
+    def send(self, data, timeout=8.0):
+        """write bytes, wait for quiescence; returns (settled, text)"""
+        if isinstance(data, str):
+            data = data.encode("utf-8")
+        # large writes in pieces so the pty input queue never overflows
+        for i in range(0, len(data), 256):
+            os.write(self.fd, data[i:i + 256])
+            if len(data) > 256:
+                self.read_some(0.01)
+        return self.settle(timeout)
+
+    def at_prompt(self):
+        return self.alive() and self.shell_syscall() != WAIT4
+
+    def log(self):
+        recs = []
+        if os.path.exists(self.log_path):
+            with open(self.log_path, "rb") as f:
+                for ln in f:
+                    try:
+                        recs.append(json.loads(ln))
+                    except ValueError:
+                        recs.append({"h": "garbled"})
+        return recs
+
+    def close(self):
+        try:
+            os.kill(self.pid, signal.SIGKILL)
+        except OSError:
+            pass
+        try:
+            os.close(self.fd)
+        except OSError:
+            pass
+        try:
+            _, st = os.waitpid(self.pid, 0)
+            self.exit_status = st
+        except OSError:
+            self.exit_status = None
+        shutil.rmtree(self.d, ignore_errors=True)
